@@ -22,7 +22,7 @@ def main():
     meta = {}
     if os.path.isdir(src) and os.path.exists(os.path.join(src, "meta.json")):
         meta = json.load(open(os.path.join(src, "meta.json")))
-    checks = sys.argv[2:] or [meta.get("property")]
+    checks = [c for c in sys.argv[2:] if not c.startswith("--")] or [meta.get("property")]
     wt = tempfile.mkdtemp(prefix="seedwt_", dir=os.environ.get("TMPDIR", "/tmp"))
     os.rmdir(wt)
     print(sh("git -C /repo worktree add -q %s HEAD" % wt).stdout, end="")
@@ -42,6 +42,7 @@ def main():
         checks = [c for c in checks if c and not c.startswith("--")]
         evsave = tempfile.mkdtemp(prefix="seedev_")          # evidence is rewritten by every run: keep what /repo itself produced
         sh("cp -a %s/evidence/. %s/" % (VERIF, evsave))
+        own = sh("cd %s && XRL_REPO=%s /opt/veriftools/pyvenv/bin/python -c \"import sys; sys.path.insert(0, 'lib'); import build; print(build.tree_key())\"" % (VERIF, wt)).stdout.strip().splitlines()[-1]
         before = set(os.listdir(os.path.join(VERIF, "build")))
         detected = {}
         for c in checks:
@@ -53,10 +54,9 @@ def main():
             print("  %s: exit=%d violations=%d (%.0fs) %s" % (c, r.returncode, nv, time.time() - t, keys))
             print("     " + last[:200])
             detected[c] = (r.returncode == 1 and nv > 0)
-        for d in set(os.listdir(os.path.join(VERIF, "build"))) - before:
-            p = os.path.join(VERIF, "build", d)
-            if os.path.isdir(p):
-                shutil.rmtree(p, ignore_errors=True)
+        p = os.path.join(VERIF, "build", own)          # only the directory of THIS tree (other trees may be under test in parallel)
+        if re.fullmatch(r"[0-9a-f]{16}", own) and own not in before and os.path.isdir(p):
+            shutil.rmtree(p, ignore_errors=True)
         print("RESULT tests_pass=%s detected_by=%s" % (tests_ok, [c for c, v in detected.items() if v]))
         return 0 if tests_ok and any(detected.values()) else 1
     finally:
